@@ -381,9 +381,12 @@ class MoveAnalysis:
         starts = []
         for c in g.conds():
             e = c.ast
+            lab = "T"
+            if isinstance(e, ast.UnaryOp) and isinstance(e.op, ast.Not):
+                e, lab = e.operand, "F"  # guard clause: `if not isinstance(v, Vector): raise`
             if isinstance(e, ast.Call) and isinstance(e.func, ast.Name) and e.func.id == "isinstance" and len(e.args) == 2 \
                     and isinstance(e.args[0], ast.Name) and e.args[0].id == self.v and txt(e.args[1]) == "Vector":
-                starts += g.edge_targets(c.id, "T")
+                starts += g.edge_targets(c.id, lab)
         if not starts:
             raise AnalysisError("%s: no isinstance(%s, Vector) test found" % (self.fi.where(), self.v))
         return self.solve(starts, State())
@@ -648,6 +651,35 @@ def r74_single_translation(ctx, res):
     ctx.require(res, "R7.4", n, 7, "move methods")
 
 
+MEASURES = [("Point", "distance"), ("Segment", "length"), ("ConvexPolygon", "length"), ("ConvexPolygon", "area"),
+            ("ConvexPolyhedron", "length"), ("ConvexPolyhedron", "area"), ("ConvexPolyhedron", "volume"),
+            ("Pyramid", "height"), ("Pyramid", "volume")]
+
+
+def r75_measures_invariant(ctx, res):
+    """'measures are unchanged': each measure method, evaluated in the translation-invariance domain with its receiver
+    translated as a whole, yields an invariant scalar -- it is built from differences of positions, lengths, directions.
+    Where the domain cannot tell (an unusual formula) the clause stays undecided: this rule only ever *confirms*."""
+    T = ctx.transl
+    n = 0
+    for cname, mname in MEASURES:
+        if not ctx.repo.has_cls(cname):
+            continue
+        m = ctx.repo.cls(cname).lookup(mname)
+        if m is None:
+            continue
+        ak = (T.self_kind(m),) + tuple("P" if cname == "Point" else "?" for _ in m.params[1:])
+        k = T.fn_kind(m, ak)
+        if k == "I":
+            n += 1
+            res.ob("R7.5", m.where(), "%s.%s is translation invariant" % (cname, mname), True,
+                   "evaluates to an invariant scalar when every position is shifted by the same vector")
+        else:
+            res.undecided_ob("%s.%s unchanged by move(): its formula is not recognisably built from differences of positions (domain value %s)"
+                             % (cname, mname, k))
+    res.count("measure methods confirmed translation invariant", n)
+
+
 def run(ctx, res):
     res.explanation = (
         "Forward must-dataflow over the CFG of each of the 7 move() methods from the accepting edge of the "
@@ -656,7 +688,8 @@ def run(ctx, res):
         "path to a normal exit -- by .move(v) on it, by component-wise += v[i] with matching axes, or by "
         "re-assignment from data depending on v / refreshed state and on no stale positional field; the success "
         "path returns a constructor call of the own class fed from refreshed state; a non-Vector argument raises. "
-        "That measures are unchanged and v then -v restores equality (floating point) is NOT decided."
+        "Every other stored value (cache) is re-assigned, deleted or translation invariant; the measure methods are "
+        "confirmed translation invariant in the same domain (R7.5). v then -v restores equality (floating point) is NOT decided."
     )
     table = field_table(ctx)
     n_pos = sum(1 for c in table.values() for k in c.values() if k == "positional")
@@ -664,9 +697,13 @@ def run(ctx, res):
     res.count("positional fields", n_pos)
     res.count("directional fields", n_dir)
     res.extra["field_table"] = table
-    ctx.require(res, "R7.1", n_pos, 18, "positional fields")
+    # (18 on the pinned tree; derived attributes turned into properties are no longer stored state -- the primary positional
+    # data are the 3 coordinates, Line.sv, Plane.p, the end points / origin, the vertex and the face collections: 10)
+    ctx.require(res, "R7.1", n_pos, 10, "positional fields")
     for cname in GEOM7:
         check_move(ctx, res, cname, table[cname])
     r74_single_translation(ctx, res)
     notes_r74(ctx, res)
-    res.undecided_ob("measures unchanged after move; move(v) then move(-v) restores an equal object (floating point)")
+    r75_measures_invariant(ctx, res)
+    res.undecided_ob("move(v) then move(-v) restores an equal object (floating point); measures of the function volume() "
+                     "(it goes through distance / intersection)")
